@@ -245,7 +245,7 @@ func c10Programs(tier string) []*Spec {
 func init() {
 	register(&Family{
 		Property: "C10",
-		Rule: "linearizability: 2 (thorough also 3) client threads with 1..2 operations each on one shared bar from four alphabets (never-terminal: IncrBy 1/2, SetRefill, SetTotal, SetCurrent, Current, Completed; triggered: increments reaching the total; terminal: Abort racing with increments; trigger: EnableTriggerComplete/SetTotal(complete) racing with increments), plus a refresher thread (manual), ticks (auto) or no rendering, a second bar in half of the programs, and a canceller; every schedule within the deviation bound. " +
+		Rule: "linearizability: 2 (thorough also 3) client threads with 1..2 operations each on one shared bar from five alphabets (never-terminal: IncrBy 1/2, SetRefill, SetTotal, SetCurrent, Current, Completed; triggered: increments reaching the total; terminal: Abort racing with increments; trigger: EnableTriggerComplete/SetTotal(complete) racing with increments; adopt: SetTotal(-1, true/false) racing with IncrBy 5 and Current), plus a refresher thread (manual), ticks (auto) or no rendering, a second bar in half of the programs, and a canceller; every schedule within the deviation bound. " +
 			"Oracle: the invoke/return history of every execution (scheduler steps as timestamps) must have a linearization under the C09 reference model (exact search over all orders consistent with real time; for mutators issued after a terminal state both 'ignored' and 'applied to the raw counters' are accepted); main's reads after quiescence are part of the history, so lost or torn updates show up as an unexplainable Current.",
 		Items: func(tier string) []Item {
 			var items []Item
